@@ -16,11 +16,13 @@ def one(m):
     return m, {'key': k, 'clean': cl, 'seconds': round(time.time() - t0), 'tail': txt[-700:]}
 
 if __name__ == '__main__':
-    ok, log = coq_build([m + '.vo' for m in CERT_MODULES])
+    mods = sys.argv[1:] or CERT_MODULES       # with arguments: only these modules are re-checked, the rest of the record is kept
+    ok, log = coq_build([m + '.vo' for m in mods])
     if not ok:
         print(log[-2000:]); sys.exit(2)
-    with ThreadPoolExecutor(max_workers=9) as ex:
-        rec = dict(ex.map(one, CERT_MODULES))
+    rec = json.load(open(CERT_RECORD)) if (sys.argv[1:] and os.path.exists(CERT_RECORD)) else {}
+    with ThreadPoolExecutor(max_workers=10) as ex:
+        rec.update(dict(ex.map(one, mods)))
     json.dump(rec, open(CERT_RECORD, 'w'), indent=1, sort_keys=True)
     for m, r in rec.items():
         print(m, r['clean'], r['seconds'], 's')
